@@ -14,6 +14,7 @@ TECHNIQUE = (
     "bounded-exhaustive exploration of annotate_citations(): all well-formed element trees with <= n elements at every "
     "pair of gaps of a short text x all span tuples x {skip, wrap}; lxml judges well-formedness and text content"
 )
+TECHNIQUE += "; " + "also: three more tag families (upper case / em / unknown tag; attributes incl. a line break, '>' and non-ASCII characters inside a value), a 30-character text for the style-tag tolerance, both diff engines; a subset again under python -O"
 RULE = (
     "sources = all element trees with <= 2 (quick) / 3 (thorough) elements over tags {i,b,p} (and, for <= 2 elements, {I,em,s}) (nested, sequential, empty); long: a 30-character text with element boundaries and span endpoints on a 10-point grid (style-tag tolerance of 10 characters) "
     "at all gap positions of 'wxyz' (thorough also 'wxyzu'), de-duplicated by serialisation; spans = all ordered tuples of "
